@@ -89,6 +89,17 @@ pub fn gen_frame(rng: &mut Rng, n: usize, out: &mut Vec<String>) {
         mask += stride;
     }
     let big_entry = |rng: &mut Rng, sz: usize| message(7, entry(b"cn=big", &[(b"blob", vec![rng.bytes(sz)])]), None);
+    // jumbo frames (beyond 64 KiB and beyond 256 KiB) with further messages behind them: the last bytes of the big frame and the
+    // followers in ONE read, everything in one read, and a read boundary exactly between them
+    for sz in [70_000usize, 300_000] {
+        let big = encode_with(&big_entry(rng, sz), rng, false);
+        let f1 = encode_with(&message(7, entry(b"cn=after", &[(b"cn", vec![b"after".to_vec()])]), None), rng, false);
+        let f2 = encode_with(&message(7, ldap_result(5, 0, b"", b"", None), None), rng, false);
+        let mut stream = big.clone(); stream.extend(&f1); stream.extend(&f2);
+        for sizes in [vec![big.len() - 10, 10 + f1.len() + f2.len()], vec![], vec![big.len(), f1.len() + f2.len()], vec![big.len() - 1, 1 + f1.len() - 3, 3 + f2.len()]] {
+            out.push(format!("frame {} {}", hex(&stream), sizes_str(&sizes)));
+        }
+    }
     for i in 0..n / 2 {
         let corp = corpus(rng);
         let k = 1 + rng.below(6) as usize;
